@@ -655,27 +655,8 @@ func runC17(c *Ctx) {
 				if !isInc || cas == nil {
 					continue
 				}
-				// guards: CAS true edge and old == nil true edge
-				casTrue, nilTrue := false, false
-				cur := b
-				for cur != nil {
-					d := cur.Idom()
-					if d == nil {
-						break
-					}
-					if ifi, ok := d.Instrs[len(d.Instrs)-1].(*ssa.If); ok {
-						onTrue := onEdge(d, 0, cur)
-						if ifi.Cond == ssa.Value(cas) && onTrue {
-							casTrue = true
-						}
-						if bo, ok := ifi.Cond.(*ssa.BinOp); ok && bo.Op == token.EQL && onTrue {
-							if cst, ok := bo.Y.(*ssa.Const); ok && cst.IsNil() && stripConv(bo.X) == stripConv(cas.Call.Args[1]) {
-								nilTrue = true
-							}
-						}
-					}
-					cur = d
-				}
+				// guards: CAS true edge and old == nil true edge, in the function or carried by the results of the helper that swaps
+				casTrue, nilTrue := swapFacts(cas, b, funcFamily(write))
 				incOK = casTrue && nilTrue
 				incDetail = fmt.Sprintf("increment guarded by swap-succeeded=%v and previous-entry-was-nil=%v", casTrue, nilTrue)
 			}
@@ -700,6 +681,98 @@ func runC17(c *Ctx) {
 		}
 		r.Check(len(bad) == 0, "R17-wrappers", "table wrappers hold no mutable state", "", "", strings.Join(bad, "; "))
 	}
+}
+
+// swapFacts: what holds whenever the block runs - the swap succeeded, the entry it replaced was nil. Read from the
+// tests on whose true edge the block lies; a test on a result of a helper of the family holds what every return of the
+// helper that can make that result true holds (its own dominating tests, and the returned condition itself).
+func swapFacts(cas *ssa.Call, b *ssa.BasicBlock, family []*ssa.Function) (casTrue, nilTrue bool) {
+	inFamily := map[*ssa.Function]bool{}
+	for _, f := range family {
+		inFamily[f] = true
+	}
+	var ofCond func(v ssa.Value, d int) (bool, bool)
+	var ofBlock func(b *ssa.BasicBlock, d int) (bool, bool)
+	ofBlock = func(b *ssa.BasicBlock, d int) (bool, bool) {
+		ct, nt := false, false
+		for cur := b; cur != nil; {
+			dom := cur.Idom()
+			if dom == nil {
+				break
+			}
+			if ifi, ok := dom.Instrs[len(dom.Instrs)-1].(*ssa.If); ok && onEdge(dom, 0, cur) {
+				c1, n1 := ofCond(ifi.Cond, d)
+				ct, nt = ct || c1, nt || n1
+			}
+			cur = dom
+		}
+		return ct, nt
+	}
+	ofCond = func(v ssa.Value, d int) (bool, bool) {
+		if d > 4 {
+			return false, false
+		}
+		if v == ssa.Value(cas) {
+			return true, false
+		}
+		switch x := v.(type) {
+		case *ssa.BinOp:
+			if cst, ok := x.Y.(*ssa.Const); ok && x.Op == token.EQL && cst.IsNil() && stripConv(x.X) == stripConv(cas.Call.Args[1]) {
+				return false, true
+			}
+		case *ssa.Phi:
+			// a && b: every edge that can carry true
+			ct, nt, n := true, true, 0
+			for i, e := range x.Edges {
+				if cst, ok := e.(*ssa.Const); ok && cst.Value != nil && cst.Value.String() == "false" {
+					continue
+				}
+				c1, n1 := ofCond(e, d+1)
+				c2, n2 := ofBlock(x.Block().Preds[i], d+1)
+				if i < len(x.Block().Preds) {
+					// the edge is taken from the predecessor: its own test counts when the predecessor branches here on true
+					p := x.Block().Preds[i]
+					if ifi, ok := p.Instrs[len(p.Instrs)-1].(*ssa.If); ok && p.Succs[0] == x.Block() && p.Succs[1] != x.Block() {
+						c3, n3 := ofCond(ifi.Cond, d+1)
+						c2, n2 = c2 || c3, n2 || n3
+					}
+				}
+				ct, nt = ct && (c1 || c2), nt && (n1 || n2)
+				n++
+			}
+			return ct && n > 0, nt && n > 0
+		case *ssa.Extract:
+			if call, ok := x.Tuple.(*ssa.Call); ok {
+				if f := call.Call.StaticCallee(); f != nil && inFamily[f] {
+					return ofResult(f, x.Index, ofCond, ofBlock, d)
+				}
+			}
+		case *ssa.Call:
+			if f := x.Call.StaticCallee(); f != nil && inFamily[f] && f.Signature.Results().Len() == 1 {
+				return ofResult(f, 0, ofCond, ofBlock, d)
+			}
+		}
+		return false, false
+	}
+	return ofBlock(b, 0)
+}
+
+func ofResult(f *ssa.Function, idx int, ofCond func(ssa.Value, int) (bool, bool), ofBlock func(*ssa.BasicBlock, int) (bool, bool), d int) (bool, bool) {
+	ct, nt, n := true, true, 0
+	for _, b := range f.Blocks {
+		ret, ok := b.Instrs[len(b.Instrs)-1].(*ssa.Return)
+		if !ok || idx >= len(ret.Results) {
+			continue
+		}
+		if cst, ok := ret.Results[idx].(*ssa.Const); ok && cst.Value != nil && cst.Value.String() == "false" {
+			continue
+		}
+		c1, n1 := ofCond(ret.Results[idx], d+1)
+		c2, n2 := ofBlock(b, d+1)
+		ct, nt = ct && (c1 || c2), nt && (n1 || n2)
+		n++
+	}
+	return ct && n > 0, nt && n > 0
 }
 
 func exprOrNil(v ssa.Value) string {
